@@ -41,6 +41,16 @@ let () =
        | Prelude.Err e -> "err:" ^ string_of_int (int_of_n e)
        | Prelude.Crash w -> "PANIC")
     | _ -> "BADARGS");
+  register "safe_req" (function
+    | [cs] ->
+      (match Http.parse_request_chunked Http.ipv4_parse (peer "h312e322e332e34" "80") (chunks_of cs) with
+       | Prelude.Ok _ -> "ok" | Prelude.Err e -> "err:" ^ string_of_int (int_of_n e) | Prelude.Crash _ -> "PANIC")
+    | _ -> "BADARGS");
+  register "safe_resp" (function
+    | [cs] ->
+      (match Http.parse_response_chunked (chunks_of cs) with
+       | Prelude.Ok _ -> "ok" | Prelude.Err e -> "err:" ^ string_of_int (int_of_n e) | Prelude.Crash _ -> "PANIC")
+    | _ -> "BADARGS");
   register "req_parse_flat" (function
     | [ip; port; b] ->
       (match Http.parse_request_flat Http.ipv4_parse (peer ip port) (bytes_of_hex b) with
